@@ -27,6 +27,10 @@ func boolToInt(b bool) int {
 }
 
 func merge(kind Kind, key string, a, b []string) []string {
+	// A rule without any value applies to all of them: so does the merged rule
+	if kind != VARIABLE && (len(a) == 0 || len(b) == 0) {
+		return nil
+	}
 	a = append(a, b...)
 	switch kind {
 	case FILE:
